@@ -234,18 +234,19 @@ CopyStates(colls, fe) ==
       final == [n \in DOMAIN colls |-> CopiedColl(colls[n])]
   IN IF fe <= 0 THEN <<>> ELSE PerColl(1) \o <<final>>
 
-\* ends = the logical sizes after each of the destination's flushes
-CopyTo(s, s2, f2, fe, ws, ends) ==
+\* sts = the destination states that get flushed (CopyStates, unless the
+\* implementation batches differently), ends = the logical sizes after each
+\* of those flushes
+CopyTo(s, s2, f2, sts, ws, ends) ==
   /\ IsOpen(s) /\ s2 \notin DOMAIN stores /\ f2 \in DOMAIN files
   /\ files[f2].len = 0
-  /\ LET sts == CopyStates(stores[s].colls, fe)
-         final == [n \in Names(s) |-> CopiedColl(Coll(s, n))]
+  /\ Len(ends) = Len(sts)
+  /\ LET final == [n \in Names(s) |-> CopiedColl(Coll(s, n))]
          fr0 == FileAfterWrites(files[f2], ws)
          RECURSIVE Push(_, _)
          Push(fr, i) == IF i > Len(sts) THEN fr
                         ELSE Push(PushDur(fr, ends[i], sts[i]), i + 1)
-     IN /\ Len(ends) = Len(sts)
-        /\ files' = SetFile(f2, Push(fr0, 1))
+     IN /\ files' = SetFile(f2, Push(fr0, 1))
         /\ stores' = SetStore(s2, StoreRec(FALSE, f2,
                                  IF ends = <<>> THEN 0 ELSE ends[Len(ends)], final))
 
